@@ -112,7 +112,7 @@ def mkcheck(op, orders, has_x=False, out_bytes=0, delta=0, two_grids=False, gen=
         variants = [only] if only else (['shared'] + (['distinct'] if two_grids else []))
         for variant in variants:
             W = World(ctx['mod'], nmax); g = W.mk_grid('g', n=fixed_n, concrete_pts=concrete_pts); grids = [g]
-            if fixed_n: W.vars['g_n'] = bv(fixed_n)
+            if fixed_n: W.vars['g_n'] = bv(fixed_n); W.ex.fork_fp_selects = True
             h = g
             if variant == 'distinct':
                 h = W.mk_grid('h', n=fixed_n); grids.append(h)
@@ -201,9 +201,11 @@ def chk_module_scan(ctx):
     return R
 
 
-# long supports (grids of 10-11 points, sizes and windows concrete, points and coefficients symbolic): loops beyond 8 intervals.
-# (operator() on such a support - the binary search - exceeds the query budget and is left to Engine A: C02/C14 large variants)
+# long supports (grids of 10-11 points, sizes and windows concrete, points and coefficients symbolic): loops and the binary search beyond
+# 8 intervals. clang lowers std::lower_bound branch-free (select on an fcmp); the executor forks on such selects (fork_fp_selects) so that
+# the addresses stay concrete - with an ite-valued index z3 does not decide the loads within the query budget.
 LARGE = [
+    mkcheck('eval1', [1], has_x=True, fixed_n=11),
     mkcheck('iszero', [2], fixed_n=11),
     mkcheck('linform', [2], fixed_n=11),
     mkcheck('sequal', [2, 2], two_grids=True, fixed_n=10),
